@@ -36,7 +36,7 @@ CHECKS['C11'] = dict(text='Bounded symbolic execution of the real CustomWithExpr
 CHECKS['C05'] = dict(text='Bounded symbolic execution of the real expression renderer (prepare_simple_expr, binary_expr, the precedence and associativity deciders of the three backends, the ExprTrait encodings of BETWEEN / LIKE..ESCAPE / IN / CAST / IS NULL / NOT) '
                   'over all expression trees of depth <= 2 (18 node kinds at every operand position; depth 3 over 8 core kinds in the thorough tier) in which every plain binary operator is a symbolic discriminant over 17 operators: on every feasible path the rendered text is parsed by a '
                   'reference precedence-climbing parser of the target dialect and must yield exactly the built tree (extra parentheses are accepted).',
-             note=TRUST_M + 'Oracle: props/sqlparse.py - precedence levels / associativity of MySQL 8.0, PostgreSQL 16 and SQLite 3.45 from their manuals and grammar files; an operator unknown to a dialect must be fully parenthesised. option-more-parentheses is not exercised in the quick tier.',
+             note=TRUST_M + 'Oracle: props/sqlparse.py - precedence levels / associativity of MySQL 8.0, PostgreSQL 16 and SQLite 3.45 from their manuals and grammar files; an operator unknown to a dialect must be fully parenthesised. Both the default build and the option-more-parentheses build are explored (own MIR dump and native replay binary each).',
              technique='symbolic execution of rustc MIR with symbolic operator discriminants; z3 decides path feasibility, a reference parser decides each path', ref='6/C05', engine=ENGINE_M)
 TRUST_K = ('Trusted base: Kani 0.68 / CBMC 6.11 (cadical) over the compiled crate (path dependency on /repo, dev profile, overflow checks on); harnesses in /verif/kani/src. '
            'Every harness has a kani::cover reachability witness (vacuity guard) and runs with unwinding assertions; a failed harness is replayed natively with Kani concrete playback before a VIOLATION is reported; '
